@@ -371,6 +371,13 @@ func c01Set(x *c01ctx, rng *rand.Rand, D []int) {
 			break
 		}
 	}
+	// proving must not have modified the credential (later proofs would then report other values than the issuer signed)
+	for i := range cred.Ledger {
+		if cred.C.Attributes[i].Cmp(cred.Ledger[i]) != 0 {
+			r.Violation("C01/credential-modified-by-proving", fmt.Sprintf("attribute %d of the credential object changed while proofs were made from it (%s)", i, desc), map[string]any{"cred": dumpCred(cred), "now": dumpInt(cred.C.Attributes[i])})
+			cred.C.Attributes[i] = cp(cred.Ledger[i])
+		}
+	}
 	// hide nothing / disclose the secret key entirely
 	dis, hid = hiddenOf(cred, append([]int{0}, D...))
 	p := refimpl.NewDProver(pk, cred.C.Signature, dis, hid)
